@@ -433,11 +433,6 @@ func predict(c sh.Case, tr *sh.Trace) *prediction {
 		switch {
 		case sh.IsStmt(st.Cmd.K):
 			unsharded := !sh.IsSharded(st.Cmd.K) || c.Slices < 2 || m.db != "db"
-			if st.Cmd.K == sh.KDropFlight {
-				// the reply was never read: nothing is known about the outcome
-				endSession(m)
-				break
-			}
 			if unsharded {
 				tc := m.conns["slice-0"]
 				// F5: opening the transaction / keep-session connection failed (BEGIN, SET autocommit=0 or the variable
@@ -526,8 +521,8 @@ func predict(c sh.Case, tr *sh.Trace) *prediction {
 		case st.Cmd.K == sh.KQuit || st.Cmd.K == sh.KDrop || st.Cmd.K == sh.KDropHard:
 			endSession(m)
 		}
-		if st.IOErr != "" {
-			endSession(m)
+		if st.IOErr != "" || st.Cmd.K == sh.KDropFlight {
+			endSession(m) // the client is gone: Session.Close
 		}
 		snap := map[string]int64{}
 		for k, v := range p.leak {
